@@ -392,3 +392,197 @@ def run_qcase(case):
         else:
             raise ValueError(k)
     return ON("q", out)
+
+
+# ----------------------------------------------------------------------------- mutation histories
+HIGH = 1000
+
+
+def label_value(cx, v, counter):
+    """labels of the containers inside a user-supplied value: counter upwards from HIGH, pre-order"""
+    cx.table, n = label_tree(v, cx.table, counter)
+    return n
+
+
+def label_new(cx, doc):
+    """containers the operation created: next labels in document pre-order"""
+    def go(v):
+        if isinstance(v, (list, dict)):
+            if id(v) not in cx.table:
+                cx.table[id(v)] = cx.next_label
+                cx.next_label += 1
+            for x in (v.values() if isinstance(v, dict) else v):
+                go(x)
+    go(doc)
+
+
+def run_mcase(case):
+    import copy
+    case = copy.deepcopy(case)
+    cx = Ctx()
+    doc = case['doc']
+    cx.label(doc)
+    vcounter = HIGH
+    held = []
+    out = [snapshot(cx, doc)]
+    keep = []   # keeps popped / replaced objects alive so that id() values are never reused
+
+    def attempt(tag, thunk):
+        try:
+            r = thunk()
+        except BaseException as e:  # noqa
+            if isinstance(e, (KeyboardInterrupt, SystemExit, MemoryError)):
+                raise
+            return ON(tag, [ON("raise", [oexn(e)]), cx.drain()])
+        return ON(tag, [r, cx.drain()])
+
+    def attempt_noev(tag, thunk):
+        try:
+            r = thunk()
+        except BaseException as e:  # noqa
+            if isinstance(e, (KeyboardInterrupt, SystemExit, MemoryError)):
+                raise
+            cx.drain()
+            return ON(tag, [ON("raise", [oexn(e)])])
+        cx.drain()
+        return ON(tag, [r])
+
+    def detached(m):
+        par = m.parent
+        if par is None or not isinstance(par.data, (list, dict)):
+            return False
+        target = par.data
+        stack = [doc]
+        while stack:
+            v = stack.pop()
+            if v is target:
+                return False
+            if isinstance(v, dict):
+                stack.extend(v.values())
+            elif isinstance(v, list):
+                stack.extend(v)
+        return True
+
+    for op in case['ops']:
+        k = op[0]
+        keep.append(copy.copy(doc) if isinstance(doc, (list, dict)) else doc)
+        if k == 'set':
+            _, p, v, cascade, as_match = op
+            vcounter = label_value(cx, v, vcounter)
+
+            def th():
+                e = build_path(cx, p)
+                if as_match:
+                    m = set_match(e, v, doc, cascade=cascade)
+                    held.append(m)
+                    return ON("result", [mref(cx, m)])
+                r = set_(e, v, doc, cascade=cascade)
+                return ON("value", [lval(cx, r)])
+            ob = attempt("set", th)
+        elif k == 'getstore':
+            _, p, d = op
+            if d[0] != 'notset':
+                vcounter = label_value(cx, d[-1], vcounter)
+
+            def th():
+                e = build_path(cx, p)
+                if d[0] == 'notset':
+                    r = get(e, doc, store_default=True)
+                elif d[0] == 'const':
+                    r = get(e, doc, default=d[1], store_default=True)
+                else:
+                    def dcall():
+                        cx.log.append(ON("callf", [OZ(d[1]), ON("null")]))
+                        return d[2]
+                    r = get(e, doc, default=dcall, store_default=True)
+                return ON("got", [lval(cx, r)])
+            ob = attempt("getstore", th)
+        elif k == 'pop':
+            _, p, d = op
+            if d is not None:
+                vcounter = label_value(cx, d[0], vcounter)
+
+            def th():
+                e = build_path(cx, p)
+                r = pop(e, doc) if d is None else pop(e, doc, default=d[0])
+                keep.append(r)
+                return ON("got", [lval(cx, r)])
+            ob = attempt("pop", th)
+        elif k == 'pop_match':
+            _, p, must = op
+
+            def th():
+                e = build_path(cx, p)
+                m = pop_match(e, doc, must_match=must)
+                if m is None:
+                    return ON("none")
+                held.append(m)
+                keep.append(m.data)
+                return ON("result", [mref(cx, m)])
+            ob = attempt("pop_match", th)
+        elif k == 'hold':
+            _, p, n = op
+
+            def th():
+                e = build_path(cx, p)
+                it = find_matches(e, doc)
+                m = None
+                try:
+                    for _ in range(n + 1):
+                        m = next(it)
+                except StopIteration:
+                    return ON("none")
+                held.append(m)
+                return ON("result", [mref(cx, m)])
+            ob = attempt_noev("hold", th)
+        elif k == 'assign':
+            _, i, v = op
+            vcounter = label_value(cx, v, vcounter)
+            if i >= len(held):
+                ob = ON("skip")
+            elif detached(held[i]):
+                ob = ON("detached")
+            else:
+                def th():
+                    keep.append(held[i].data)
+                    held[i].data = v
+                    return ON("ok", [lval(cx, held[i].data)])
+                ob = attempt_noev("assign", th)
+        elif k == 'del':
+            i = op[1]
+            if i >= len(held):
+                ob = ON("skip")
+            elif detached(held[i]):
+                ob = ON("detached")
+            else:
+                def th():
+                    keep.append(held[i].data)
+                    del held[i].data
+                    return ON("ok")
+                ob = attempt_noev("del", th)
+        elif k == 'mpop':
+            _, i, d = op
+            if d is not None:
+                vcounter = label_value(cx, d[0], vcounter)
+            if i >= len(held):
+                ob = ON("skip")
+            elif detached(held[i]):
+                ob = ON("detached")
+            else:
+                def th():
+                    r = held[i].pop() if d is None else held[i].pop(d[0])
+                    keep.append(r)
+                    return ON("got", [lval(cx, r)])
+                ob = attempt_noev("mpop", th)
+        elif k == 'read':
+            i = op[1]
+            if i >= len(held):
+                ob = ON("skip")
+            else:
+                m = held[i]
+                ob = ON("read", [lval(cx, m.data), OS(m.path_as_str), oname(m.data_name)])
+        else:
+            raise ValueError(k)
+        label_new(cx, doc)
+        out.append(ON("op", [ob, snapshot(cx, doc)]))
+    return ON("m", out)
